@@ -305,6 +305,13 @@ __attribute__((noinline)) void PSession::do_call(const Op &op, Outcome &o) {
             break;
         }
         case P_TO_WRITER: {
+            if (op.c == 1 && ext_writer) {       // a long-lived writer shared by several parsers / calls
+                LIB(o.ret = binson_parser_to_writer(p, ext_writer));
+                LIB(o.size_out = binson_writer_get_counter(ext_writer));
+                uint32_t we = 0; memcpy(&we, &ext_writer->error_flags, 4);
+                o.text = fmt("werr=%s shared-writer", err_name(we));
+                break;
+            }
             size_t capn = (size_t)(op.a < 0 ? 0 : op.a);
             wb = block_alloc(sizeof(binson_writer), 0); memset(wb.p, 0x5A, wb.n);
             wdest = block_alloc(capn, 0); if (capn) memset(wdest.p, 0xA5, capn);
